@@ -301,6 +301,7 @@ def run(ch: Checker) -> None:
              bad2c[0] if bad2c else 'no relaying path found', witness=bad2c[1] if bad2c else None)
 
     # ---------------- C09.4b (shared)
+    ch.rule('C09.11', 'the access-log formats consist of plain {name} fields (no format specification, no indexing; the proxy formats name keys of the log context only): formatting the line cannot raise, so the on_upstream_connection_close hooks that follow it run for every connection', 4)
     ch.rule('C09.10', 'a plugin\'s rejection is answered on every request of the connection: in HttpProtocolHandler.handle_data the calls that can raise a rejection -- the first-request path and plugin.on_client_data for every later '
                       'request -- both sit inside the try whose HttpProtocolException handler queues e.response(); outside it a later request\'s rejection is a bare teardown without the plugin\'s response', 2)
     hd10 = prog.own_method('HttpProtocolHandler', 'handle_data')
@@ -431,3 +432,47 @@ def run(ch: Checker) -> None:
                 ch.check(lenient, 'C09.6', fn, c, 'lenient decode of %s' % wire,
                          '%s holds bytes taken from the wire and is decoded strictly on the connection-close path: a non-UTF-8 value raises UnicodeDecodeError before the '
                          'access-log / connection-close hooks run, so they never fire for that connection' % wire)
+
+    # ---------------- C09.11 formatting the access line cannot raise between the on_access_log chain and the close hooks
+    import string
+    from ..consteval import ConstEval
+    ce11 = ConstEval(prog)
+    cm11 = prog.modules.get('proxy.common.constants')
+    if cm11 is None:
+        raise AnalysisError('anchor vanished: proxy.common.constants')
+    occ = prog.own_method('HttpProxyPlugin', 'on_client_connection_close')
+    ctx_keys = set()
+    for d_ in walk_no_nested(occ.node):
+        if isinstance(d_, ast.Dict) and any(isinstance(k_, ast.Constant) and k_.value == 'client_ip' for k_ in d_.keys):
+            ctx_keys = {k_.value for k_ in d_.keys if isinstance(k_, ast.Constant)}
+    n11 = 0
+    for st_ in cm11.tree.body:
+        if isinstance(st_, ast.Assign) and len(st_.targets) == 1 and isinstance(st_.targets[0], ast.Name) and st_.targets[0].id.endswith('ACCESS_LOG_FORMAT'):
+            nm_ = st_.targets[0].id
+            val = ce11.try_eval(cm11, st_.value)
+            if not isinstance(val, str):
+                ch.skip('C09.11', None, nm_, 'the format is not a constant string', module_rel=cm11.relpath)
+                continue
+            n11 += 1
+            try:
+                fields = [(f_, spec, conv) for _, f_, spec, conv in string.Formatter().parse(val) if f_ is not None]
+                problem = None
+            except ValueError as e_:
+                fields, problem = [], 'the format string is malformed (%s)' % e_
+            for f_, spec, conv in fields:
+                if spec:
+                    problem = 'field {%s:%s} carries a format specification: entries of the log context are None whenever the exchange ended before that value existed (no response parsed, no upstream), and ' \
+                              'format(None, %r) raises TypeError' % (f_, spec, spec)
+                elif not f_.isidentifier():
+                    problem = 'field {%s} indexes into a context entry, which raises when that entry is None' % f_
+                elif 'PROXY' in nm_ and 'REVERSE' not in nm_ and ctx_keys and f_ not in ctx_keys:
+                    problem = 'field {%s} is not a key of the context built by on_client_connection_close (KeyError)' % f_
+            ch.check(problem is None, 'C09.11', None, nm_, 'plain {name} fields only (%d field(s)): formatting cannot raise whatever the values are' % len(fields),
+                     '%s: %s -- the exception leaves on_client_connection_close after the on_access_log chain and before the on_upstream_connection_close hooks, which then never run for that connection '
+                     '(and the upstream socket is not closed there)' % (nm_, problem), module_rel=cm11.relpath, line=st_.lineno)
+    if n11 < 4:
+        raise AnalysisError('anchor vanished: fewer than four *_ACCESS_LOG_FORMAT constants in proxy.common.constants')
+    from .common import plugin_load_check
+    ch.rule('C09.12', 'Plugins.load keeps every class the importer returns (in the order given) unless that very class object is already listed: membership of the class, never a comparison of class names -- otherwise a configured plugin and its hooks silently vanish', 1)
+    plugin_load_check(ch, 'C09.12')
+
